@@ -360,11 +360,23 @@ fn fe_closure(
     }
 }
 
+/// A pattern text that starts with the placeholder `$R` (followed by `/` or nothing) is rooted at
+/// the world root: the placeholder is replaced by the escaped absolute path (negations over rooted
+/// glob walks match against the whole absolute path).
+pub fn subst_pattern(pf: &PatForm, root_text: &str) -> PatForm {
+    let esc = wax::escape(root_text).into_owned();
+    pf.map_texts(&mut |t: &str| match t.strip_prefix(R) {
+        Some(rest) if rest.is_empty() || rest.starts_with('/') => format!("{}{}", esc, rest),
+        _ => t.to_string(),
+    })
+}
+
 /// Builds the negation exactly in the form the scenario says.
-fn apply_not<I>(it: I, form: &PatForm) -> Result<wax::walk::Not<I>, String>
+fn apply_not<I>(it: I, form: &PatForm, root_text: &str) -> Result<wax::walk::Not<I>, String>
 where
     I: FileIterator,
 {
+    let form = &subst_pattern(form, root_text);
     let e = |e: wax::BuildError| format!("not: {}", e);
     match form {
         PatForm::Text(t) => it.not(t.as_str()).map_err(e),
@@ -405,7 +417,7 @@ macro_rules! levels {
                 let it = $tap(it, idx, ctx);
                 match layers.first() {
                     None => Ok(finish(it, ctx)),
-                    Some(Layer::Not(form)) => $next(apply_not(it, form)?, &layers[1..], idx + 1, ctx, cwd),
+                    Some(Layer::Not(form)) => $next(apply_not(it, form, &ctx.root_text)?, &layers[1..], idx + 1, ctx, cwd),
                     Some(Layer::Fe(table)) => $next(
                         it.filter_entry(fe_closure(table, idx, ctx, cwd)),
                         &layers[1..],
